@@ -29,6 +29,47 @@ CONFIGS = [
 ]
 
 
+# arrays left in the middle of a sync by the reference version (new files recorded but not synced yet): what was synced
+# before must stay repairable by later versions. "synced" in the manifest lists the files whose blocks are all synced.
+PARTIAL = [
+    dict(name="partial-m3-16-p1", cfg=dict(nd=3, nlev=1, hashsize=16), hash="murmur3", how=["-B", "1"]),
+    dict(name="partial-sp-16-p2", cfg=dict(nd=4, nlev=2, hashsize=16), hash="spooky2", how=["-S", "1", "-B", "2"]),
+    dict(name="partial-m3-8-z3", cfg=dict(nd=4, nlev=3, zmode=True, hashsize=8), hash="murmur3", how=["--test-kill-after-sync"]),
+    dict(name="partial-sp-16-p1-kill", cfg=dict(nd=2, nlev=1, hashsize=16), hash="spooky2", how=["--test-kill-after-sync"]),
+]
+
+
+def make_partial():
+    """Run against a build of the pinned commit only (VERIF_REPO)."""
+    from . import content as cnt
+    os.makedirs(REFDIR, exist_ok=True)
+    for spec in PARTIAL:
+        rng = random.Random("refp-%s" % spec["name"])
+        cfg = dict(spec["cfg"])
+        cfg.setdefault("ncontent", 2)
+        cfg["content_on_data"] = False
+        a, fs = scen.make(rng, cfg, "mkref")
+        try:
+            A.populate(fs, rng, nfiles=10, hostile=0.1, links=False, dirs=False)
+            r = a.cmd("sync", "--test-force-" + spec["hash"])
+            assert r.rc == 0, r.err
+            # additions only, into positions never used before, plus a few deletions for the last spec kinds
+            scen.mutate(fs, rng, 8, hostile=0.1, ops=["create", "create", "create", "append"])
+            r = a.cmd("sync", "-E", "-Z", *spec["how"])
+            c = a.load_content()
+            synced = []
+            for f in c.files:
+                if f.blocks and all(b[1] == cnt.BLK for b in f.blocks):
+                    synced.append([c.disk_name(f.disk).decode(), base64.b64encode(f.sub).decode()])
+            pend = sum(1 for f in c.files for b in f.blocks if b[1] != cnt.BLK)
+            assert synced and pend, (len(synced), pend)
+            spec2 = dict(spec, partial=True, synced=synced, pending_blocks=pend)
+            save(a, spec2, [])
+            print("made", spec["name"], "synced files", len(synced), "pending blocks", pend)
+        finally:
+            a.cleanup()
+
+
 def make_all():
     """Run from the pristine tree only."""
     os.makedirs(REFDIR, exist_ok=True)
@@ -85,7 +126,7 @@ def save(a, spec, extra):
 
 
 def names():
-    return [s["name"] for s in CONFIGS if os.path.exists(os.path.join(REFDIR, s["name"] + ".tar.gz"))]
+    return [s["name"] for s in CONFIGS + PARTIAL if os.path.exists(os.path.join(REFDIR, s["name"] + ".tar.gz"))]
 
 
 def restore(name, tag="c16"):
@@ -107,4 +148,7 @@ def restore(name, tag="c16"):
 
 
 if __name__ == "__main__":
-    make_all()
+    if "partial" in sys.argv[1:]:
+        make_partial()
+    else:
+        make_all()
